@@ -7,7 +7,7 @@ namespace Yardl.Proto
 
 def WInv (p : Shape) (s : WPos) : Prop := s.openS = true → isStream p s.k = true ∧ s.k < p.length
 def RInv' (p : Shape) (s : RPos) : Prop := s.drained = true → isStream p s.k = true ∧ s.k < p.length
-def PRInv (p : Shape) (s : PRPos) : Prop := s.inS = true → isStream p s.k = true ∧ s.k < p.length
+def PRInv (p : Shape) (s : PRPos) : Prop := (s.inS = true → isStream p s.k = true ∧ s.k < p.length) ∧ (s.inS = false → s.dead = false)
 
 theorem cppW_step (p : Shape) (s : WPos) (op : WOp) (_h : s.openS = false) :
     (specWcpp p s op).map (·.k) = cppW p s.k op := by
@@ -46,15 +46,16 @@ theorem cppR_inv (p : Shape) (s : RPos) (op : ROp) (h : RInv' p s) : ∀ s', spe
 
 theorem pyR_step (p : Shape) (s : PRPos) (op : PROp) (h : PRInv p s) :
     (specRpy p s op).map encPR = pyR p (encPR s) op := by
-  obtain ⟨k, o⟩ := s
+  obtain ⟨k, o, d⟩ := s
   unfold PRInv at h
-  cases op <;> cases o <;> simp only [specRpy, pyR, encPR, apply_ite (Option.map encPR), Option.map_some, Option.map_none] at * <;> grind
+  cases op <;> cases o <;> cases d <;>
+    simp only [specRpy, pyR, encPR, apply_ite (Option.map encPR), Option.map_some, Option.map_none] at * <;> grind
 
 theorem pyR_inv (p : Shape) (s : PRPos) (op : PROp) (h : PRInv p s) : ∀ s', specRpy p s op = some s' → PRInv p s' := by
-  obtain ⟨k, o⟩ := s
+  obtain ⟨k, o, d⟩ := s
   unfold PRInv at *
   intro s'
-  cases op <;> cases o <;> simp only [specRpy] at * <;> grind
+  cases op <;> cases o <;> cases d <;> simp only [specRpy] at * <;> grind
 
 /-! ### lifting to operation sequences -/
 
